@@ -21,7 +21,7 @@ chk("C01", "model_checking",
     "Map-iteration order is exercised on every history but sampled, not enumerated; harness feeds byte-identical requests.",
     "deviation-bounded exhaustive history exploration on the real app, twin-replica differential oracle", "§5 C01")
 chk("C05", "model_checking",
-    "53 failing templates (one per failure reason x type, incl. templates whose first field is acceptable and a later one is not, incl. 256-bit boundary amounts and balance-covers-amount-but-not-fee senders) inserted at EVERY position of the dense history in three genesis variants (thorough: all ordered pairs); the replica with the insertion must agree with the one without on every later response and on the complete committed state.",
+    "50 failing contract programs [gadget, REVERT] judged against the reference EVM, and 53 failing templates (one per failure reason x type, incl. templates whose first field is acceptable and a later one is not, incl. 256-bit boundary amounts and balance-covers-amount-but-not-fee senders) inserted at EVERY position of the dense history in three genesis variants (thorough: all ordered pairs); the replica with the insertion must agree with the one without on every later response and on the complete committed state.",
     "Empty account records materialised for a looked-up receiver are ignored (not a change of balance/nonce/doc); app hash not compared.",
     "exhaustive insertion of failing transactions at every position, twin oracle over the full state", "§5 C05")
 chk("C06", "model_checking",
@@ -88,7 +88,7 @@ chk("C03", "model_checking",
     "Injectivity is claimed over the enumerated menus; wire-level re-encodings decoding to equal values are not alterations; secp256k1/sha256 trusted.",
     "bounded-exhaustive mutation enumeration with twin oracle + exhaustive bounded pre-image injectivity check", "§5 C03")
 chk("C17", "model_checking",
-    "ALL gadget sequences up to length 3 (quick) / 4 (thorough) over a 29-gadget alphabet (block/transaction context, value to the COINBASE, code introspection, DELEGATECALL / STATICCALL and value to a precompile in programs up to length 2, storage, logs, BALANCE of known and never-seen accounts, value-forwarding CALLs to EOA / contract / reverting contract / self, CREATE, CREATE2, CALLVALUE, SELFBALANCE, gas loop, RETURN, REVERT, SELFDESTRUCT to another account / the caller) are deployed and exercised in 4 history families mixing deployments and calls with and without value, plain transfers to the contract and to a child it created, native transfers, staking, proposer-less blocks and a vm_call after every block; every contract transaction runs in lock step on a vanilla go-ethereum StateDB + ApplyMessage world whose balances/nonces are overwritten from the native-ledger model before and copied back after each message. Compared: outcome, return data, gas used, logs per transaction; native balance and nonce of every account of the reference world, code and storage of every contract at every height; vm_call result and read-onlyness. Two genuine defects recorded as known findings (CREATE-made contracts bypassed by plain transfers; self-destructed contracts keep their native record).",
+    "ALL gadget sequences up to length 3 (quick) / 4 (thorough) over a 30-gadget alphabet (block/transaction context, a helper whose inner frame touches a third party and succeeds, value to the COINBASE, code introspection, DELEGATECALL / STATICCALL and value to a precompile in programs up to length 2, storage, logs, BALANCE of known and never-seen accounts, value-forwarding CALLs to EOA / contract / reverting contract / self, CREATE, CREATE2, CALLVALUE, SELFBALANCE, gas loop, RETURN, REVERT, SELFDESTRUCT to another account / the caller) are deployed and exercised in 4 history families mixing deployments and calls with and without value, plain transfers to the contract and to a child it created, native transfers, staking, proposer-less blocks and a vm_call after every block; every contract transaction runs in lock step on a vanilla go-ethereum StateDB + ApplyMessage world whose balances/nonces are overwritten from the native-ledger model before and copied back after each message. Compared: outcome, return data, gas used, logs per transaction; native balance and nonce of every account of the reference world, code and storage of every contract at every height; vm_call result and read-onlyness. Two genuine defects recorded as known findings (CREATE-made contracts bypassed by plain transfers; self-destructed contracts keep their native record).",
     "go-ethereum interpreter/StateDB/ApplyMessage trusted; storage is read slot-by-slot (slots 0..15), which covers the gadget alphabet.",
     "exhaustive program (gadget-sequence) enumeration x history family, lock-step differential execution against a reference EVM world", "§5 C17")
 
